@@ -229,7 +229,8 @@ fn check_refl(a: &PD) {
     }
 }
 
-fn check_triple(cx: &mut Ctx, tag: &str, t: [&PD; 3]) {
+fn check_triple(cx: &mut Ctx, tag: &str, t: [&PD; 3]) { check_triple_opt(cx, tag, t, true) }
+fn check_triple_opt(cx: &mut Ctx, tag: &str, t: [&PD; 3], emit: bool) {
     let mut o = [[Ordering::Equal; 3]; 3];
     for i in 0..3 { for j in 0..3 {
         match run_cmp(t[i], t[j]) { Some(x) => o[i][j] = x, None => { emit_oracle_fail("cmp-panic", &format!("a={} b={}", coq_pd(t[i]), coq_pd(t[j]))); return; } }
@@ -248,9 +249,11 @@ fn check_triple(cx: &mut Ctx, tag: &str, t: [&PD; 3]) {
                 coq_pd(t[x]), coq_pd(t[y]), coq_pd(t[z]), xy, yz, xz));
         }
     } } }
-    check_cmp(cx, tag, t[0], t[1]);
-    check_cmp(cx, tag, t[1], t[2]);
-    check_cmp(cx, tag, t[0], t[2]);
+    if emit {
+        check_cmp(cx, tag, t[0], t[1]);
+        check_cmp(cx, tag, t[1], t[2]);
+        check_cmp(cx, tag, t[0], t[2]);
+    } else { cx.n_cmp += 9; }
     for a in t { check_refl(a); }
 }
 
@@ -336,12 +339,49 @@ fn main() {
     let ones = [int_pd(1), bu(&[1]), bu(&[0, 0, 1]), int_pd(-1), bn(&[1]), bn(&[0, 1]), int_pd(256), bu(&[1, 0]), bn(&[1, 0]), int_pd(-256),
                 int_pd(u64::MAX as i128), bu(&[255; 8]), bu(&[1, 0, 0, 0, 0, 0, 0, 0, 0]), int_pd(-(1i128 << 64)), bn(&[1, 0, 0, 0, 0, 0, 0, 0, 0]), bn(&[255; 8])];
     for a in &ones { for b in &ones { check_cmp(&mut cx, "small-forms", a, b); } }
-    for a in &ones { for b in &zeros { let k = (cx.n_cmp % 7) as usize; check_triple(&mut cx, "small-forms", [a, b, &ones[k]]); } }
+    for a in &ones { for b in &zeros { for c in &ones { check_triple_opt(&mut cx, "small-forms", [a, b, c], false); } } }
+    // ---- one empty and one non-empty representative of every variant: all ordered triples
+    //      (a cycle in the variant order breaks transitivity only), bare and nested in a list
+    let reps: Vec<PD> = vec![
+        PD::Constr(Constr { tag: 121, any_constructor: None, fields: MaybeIndefArray::Def(vec![]) }),
+        PD::Constr(Constr { tag: 102, any_constructor: Some(200), fields: MaybeIndefArray::Indef(vec![bytes_pd(vec![1])]) }),
+        PD::Map(KeyValuePairs::Def(vec![])), PD::Map(KeyValuePairs::Indef(vec![(int_pd(1), bytes_pd(vec![]))])),
+        PD::Array(MaybeIndefArray::Def(vec![])), PD::Array(MaybeIndefArray::Indef(vec![bytes_pd(vec![9]), int_pd(-1)])),
+        int_pd(0), bn(&[7, 7]), bytes_pd(vec![]), bytes_pd(vec![0, 255]),
+    ];
+    for (i, a) in reps.iter().enumerate() { for (j, b) in reps.iter().enumerate() { for (k, c) in reps.iter().enumerate() {
+        if i < j && j < k {
+            check_triple_opt(&mut cx, "variant-triple", [a, b, c], (i + j + k) % 7 == 0);
+            let (wa, wb, wc) = (PD::Array(MaybeIndefArray::Def(vec![a.clone()])), PD::Array(MaybeIndefArray::Indef(vec![b.clone()])), PD::Array(MaybeIndefArray::Def(vec![c.clone(), a.clone()])));
+            check_triple_opt(&mut cx, "variant-triple", [&wa, &wb, &wc], false);
+        }
+    } } }
     // ---- constr_index on every interesting tag
     for tag in [0u64, 101, 102, 103, 120, 121, 127, 128, 1279, 1280, 1400, 1401, u64::MAX] {
         check_index(&mut cx, tag, None);
         check_index(&mut cx, tag, Some(0));
         check_index(&mut cx, tag, Some(u64::MAX));
+    }
+    // ---- the compact tags and the general form 102 name the same constructors (Plutus: 121+i = i for
+    //      i in 0..6, 1280+j = 7+j for j in 0..120): equal as values, ordered by constructor number
+    for ix in (0u64..=127).chain([128u64, 1000]) {
+        let general = PD::Constr(Constr { tag: 102, any_constructor: Some(ix), fields: MaybeIndefArray::Def(vec![]) });
+        if ix <= 127 {
+            let tag = if ix < 7 { 121 + ix } else { 1280 + ix - 7 };
+            let compact = PD::Constr(Constr { tag, any_constructor: None, fields: MaybeIndefArray::Indef(vec![]) });
+            if run_cmp(&compact, &general) != Some(Ordering::Equal) {
+                emit_oracle_fail("constr-forms", &format!("tag {} and 102/{} differ: {:?}", tag, ix, run_cmp(&compact, &general)));
+            }
+            check_cmp(&mut cx, "constr-forms", &compact, &general);
+            check_codec(&mut cx, "constr-forms", &compact);
+        }
+        let next = PD::Constr(Constr { tag: 102, any_constructor: Some(ix + 1), fields: MaybeIndefArray::Def(vec![]) });
+        let prev_tag = if ix < 7 { 121 + ix } else if ix <= 127 { 1280 + ix - 7 } else { 1400 };
+        let below = PD::Constr(Constr { tag: prev_tag, any_constructor: None, fields: MaybeIndefArray::Def(vec![int_pd(5)]) });
+        if run_cmp(&below, &next) != Some(Ordering::Less) {
+            emit_oracle_fail("constr-forms", &format!("tag {} should be below 102/{}: {:?}", prev_tag, ix + 1, run_cmp(&below, &next)));
+        }
+        check_codec(&mut cx, "constr-forms", &general);
     }
     // ---- hand-written decoder inputs
     for h in ["d8669f0080", "d8669f0080ff", "d866820080", "d86682009fff", "d8668100", "d866a0", "d86600", "d87980", "d8799fff", "d879a0",
@@ -384,8 +424,17 @@ fn main() {
             5 => {
                 let dd = 1 + rng.below(4) as u32;
                 let b = gen_pd(&mut rng, dd);
-                check_cmp(&mut cx, "pair-random", &a, &b);
-                check_refl(&a);
+                if rng.bool() {
+                    check_cmp(&mut cx, "pair-random", &a, &b);
+                    check_refl(&a);
+                } else {
+                    // three unrelated values (usually three different variants), sharing a prefix in a list
+                    let c = gen_pd(&mut rng, 1);
+                    let p = gen_pd(&mut rng, 0);
+                    let wrap = |x: &PD| PD::Array(MaybeIndefArray::Def(vec![p.clone(), x.clone()]));
+                    check_triple(&mut cx, "triple-unrelated", [&a, &b, &c]);
+                    check_triple_opt(&mut cx, "triple-unrelated", [&wrap(&a), &wrap(&b), &wrap(&c)], false);
+                }
             }
             6 | 7 => { check_codec(&mut cx, "codec", &a); }
             _ => {
